@@ -4,7 +4,10 @@ package main
 import (
 	"bytes"
 	"encoding/json"
+	"errors"
 	"fmt"
+	"github.com/biogo/biogo/seq"
+	"github.com/biogo/biogo/seq/linear"
 	"io"
 	"strings"
 	_ "verif/h/duoc"
@@ -38,13 +41,26 @@ type kase struct {
 	Width   int           `json:"width,omitempty"` // FASTA wrap width of the variant
 	Enc     int           `json:"enc,omitempty"`
 	QID     bool          `json:"qid,omitempty"`
-	QT      bool          `json:"qtemplate,omitempty"` // FASTA read into a quality-carrying template (letters appended line by line)
-	Protein bool          `json:"protein,omitempty"`   // FASTA over the protein alphabet (its stop letter '*' included)
-	Prefix  bool          `json:"prefixed,omitempty"`  // FASTA written and read with IDPrefix "#>" and SeqPrefix "##" (as embedded in other formats)
+	QT      bool          `json:"qtemplate,omitempty"`      // FASTA read into a quality-carrying template (letters appended line by line)
+	Protein bool          `json:"protein,omitempty"`        // FASTA over the protein alphabet (its stop letter '*' included)
+	Picky   bool          `json:"picky_template,omitempty"` // FASTA read into a template of the caller's own whose SetDescription refuses the empty string
+	Prefix  bool          `json:"prefixed,omitempty"`       // FASTA written and read with IDPrefix "#>" and SeqPrefix "##" (as embedded in other formats)
 	BedTyp  int           `json:"bedtyp,omitempty"`
 	Bed     []featgen.Bed `json:"bed,omitempty"`
 	Gff     []featgen.Gff `json:"gff,omitempty"`
 	L       layout        `json:"layout"`
+}
+
+// pickyT is a FASTA template that refuses an empty description (a reader that finds no description does
+// not set one).
+type pickyT struct{ *linear.Seq }
+
+func (p pickyT) Clone() seq.Sequence { return pickyT{p.Seq.Clone().(*linear.Seq)} }
+func (p pickyT) SetDescription(d string) error {
+	if d == "" {
+		return errors.New("template: empty description refused")
+	}
+	return p.Seq.SetDescription(d)
 }
 
 func render(lines []string, l layout) []byte {
@@ -152,7 +168,11 @@ func check(c *enum.Ctx, k kase) {
 			var got []seqgen.Rec
 			comp := seqgen.NewCompanion(k.Format) // a second reader over another layout, advanced alternately
 			if k.Format == "fasta" {
-				rd := fasta.NewReader(bytes.NewReader(variant), seqgen.Template(k.QT, k.Protein, alphabet.Sanger))
+				tmpl := seqgen.Template(k.QT, k.Protein, alphabet.Sanger)
+				if k.Picky {
+					tmpl = pickyT{linear.NewSeq("", nil, alphabet.DNA)}
+				}
+				rd := fasta.NewReader(bytes.NewReader(variant), tmpl)
 				if k.Prefix {
 					rd.IDPrefix, rd.SeqPrefix = []byte("#>"), []byte("##")
 				}
@@ -322,7 +342,7 @@ func layouts(n int, blankSites []int, trailing bool, pairs bool) []layout {
 }
 
 func run(c *enum.Ctx) {
-	c.Rule("FASTA read into plain and quality-carrying templates, and written/read with ID and sequence-line prefixes; every FASTA/FASTQ file read alternately with a companion reader of another configuration; valid files from the C01/C02 generators (DNA and protein records, the protein stop letter alone on a line) (<=2 records; FASTA also a 12289-letter record) x layout transformations: FASTA re-wrap at widths {1,2,3,60,4095,4096,4097,20000}, a blank line - empty or holding white space only - at every line boundary (thorough: every pair), trailing ' ', tab, ' tab' on each line and on all lines, CRLF, no final newline, and their pairwise combinations; FASTQ: CRLF, blank lines at record boundaries, trailing blanks, no final newline; BED (every type) and GFF (features, regions, inline sequences last or not; a record whose line is 4094..4097, 8191..8193 and 12288 bytes long, last and first): CRLF x final newline; oracle: the record list of the variant equals that of the canonical file, for BED/GFF also on a second pass of the same reader after its source was rewound; non-trivial = variants that differ from the canonical text")
+	c.Rule("FASTA read into plain and quality-carrying templates and (layouts with trailing blanks) into a template that refuses an empty description, and written/read with ID and sequence-line prefixes; every FASTA/FASTQ file read alternately with a companion reader of another configuration; valid files from the C01/C02 generators (DNA and protein records, the protein stop letter alone on a line) (<=2 records; FASTA also a 12289-letter record) x layout transformations: FASTA re-wrap at widths {1,2,3,60,4095,4096,4097,20000}, a blank line - empty or holding white space only - at every line boundary (thorough: every pair), trailing ' ', tab, ' tab' on each line and on all lines, CRLF, no final newline, and their pairwise combinations; FASTQ: CRLF, blank lines at record boundaries, trailing blanks, no final newline; BED (every type) and GFF (features, regions, inline sequences last or not; a record whose line is 4094..4097, 8191..8193 and 12288 bytes long, last and first): CRLF x final newline; oracle: the record list of the variant equals that of the canonical file, for BED/GFF also on a second pass of the same reader after its source was rewound; non-trivial = variants that differ from the canonical text")
 	c.Assume("blank lines inside a FASTQ record and trailing blanks/blank lines in BED/GFF are not covered by the statement and are not generated")
 	var cases []kase
 	recs := []seqgen.Rec{
@@ -469,6 +489,13 @@ func run(c *enum.Ctx) {
 	for _, k := range cases[:len(cases):len(cases)] {
 		if k.Format == "fasta" {
 			k.QT = true
+			cases = append(cases, k)
+		}
+	}
+	// every plain DNA FASTA case with trailing blanks again into a template that refuses an empty description
+	for _, k := range cases[:len(cases):len(cases)] {
+		if k.Format == "fasta" && !k.QT && !k.Protein && k.LongLen == 0 && (len(k.L.Trail) > 0 || k.L.AllTrail) {
+			k.Picky = true
 			cases = append(cases, k)
 		}
 	}
